@@ -3,7 +3,8 @@ package c08
 import (
 	"bytes"
 	"fmt"
-	"runtime"
+	"os"
+	"runtime/debug"
 	"strings"
 	"testing"
 
@@ -57,24 +58,38 @@ func drawCompiler(t *rapid.T, in inst) compiler.Name {
 	return rapid.SampledFrom(pool).Draw(t, "compiler")
 }
 
-const knownNilComponent = "C08-nil-component-panic"
-
-// panicsNilDeref runs f; it returns the panic message if f panics with a nil pointer
-// dereference, re-panics on any other panic, and returns "" when f returns normally.
-func panicsNilDeref(f func()) (msg string) {
+// catchPanic runs f and returns the panic value (as text) and the stack if f panics; rapid's own
+// control-flow panics are passed on.
+func catchPanic(f func()) (msg, stack string) {
 	defer func() {
 		if r := recover(); r != nil {
-			s := fmt.Sprint(r)
-			if re, ok := r.(runtime.Error); ok && strings.Contains(re.Error(), "nil pointer dereference") {
-				msg = s
-				return
+			if tn := fmt.Sprintf("%T", r); tn == "rapid.stopTest" || tn == "rapid.invalidData" {
+				panic(r)
 			}
-			panic(r)
+			msg = fmt.Sprint(r)
+			if msg == "" {
+				msg = "(empty panic value)"
+			}
+			stack = string(debug.Stack())
 		}
 	}()
 	f()
-	return ""
+	return "", ""
 }
+
+func firstLine(s string) string {
+	if i := strings.IndexByte(s, '\n'); i >= 0 {
+		s = s[:i]
+	}
+	if len(s) > 80 {
+		s = s[:80]
+	}
+	return s
+}
+
+// discoverMode (VERIF_C08_DISCOVER=1) records violations as classes instead of failing; used
+// while cataloguing, never by the driver.
+func discoverMode() bool { return os.Getenv("VERIF_C08_DISCOVER") != "" }
 
 type fataler interface {
 	Fatalf(format string, args ...any)
@@ -248,32 +263,44 @@ func runTamper(t *rapid.T, test string, in inst, what string) {
 		t.Fatalf("harness: context: %v", err)
 	}
 	var verr error
-	if m.op == "null" || m.op == "map-drop" {
-		// catalogued finding C08-nil-component-panic: a missing / null component below the level the
-		// compilers validate is dereferenced. Exactly these inputs are excluded (and observed by
-		// TestKnownNilComponent); a panic on any other mutation still fails.
-		if msg := panicsNilDeref(func() { verr = in.Verify(cn, ctxV, seed+3, "", false, m.bytes, false) }); msg != "" {
-			vlib.Excluded(knownNilComponent)
-			vlib.Class(test, "known-nil-deref="+in.Proto()+"/"+string(cn)+":"+shortClass(m.class))
-			vlib.Case(test, vlib.Desc(in.Proto(), cn, in.Shape(), in.Group(), "tamper:"+m.op, "excluded-known-panic"), false,
-				"op="+m.op, "verdict=excluded:"+knownNilComponent)
+	panicMsg, stack := catchPanic(func() { verr = in.Verify(cn, ctxV, seed+3, "", false, m.bytes, false) })
+	if se, ok := verr.(*stepErr); ok && panicMsg == "" {
+		t.Fatalf("harness: %v", se)
+	}
+	violation := ""
+	switch {
+	case panicMsg != "":
+		violation = "panic"
+	case verdict == "accept:same-values" && verr != nil:
+		violation = "rejected-same-values"
+	case verdict != "accept:same-values" && verr == nil:
+		violation = "accepted"
+	}
+	if violation != "" {
+		if id := matchKnown(in, cn, m, violation, panicMsg); id != "" {
+			// exactly the catalogued inputs are excluded (and observed by the TestKnown* regression tests)
+			vlib.Excluded(id)
+			vlib.Class(test, "known:"+id+"="+in.Proto()+"/"+string(cn)+"/"+m.op+":"+shortClass(m.class))
+			vlib.Case(test, vlib.Desc(in.Proto(), cn, in.Shape(), in.Group(), "tamper:"+m.op, "excluded:"+id), false,
+				"op="+m.op, "verdict=excluded:"+id)
 			return
 		}
-	} else {
-		vlib.NoPanic(t, fmt.Sprintf("Verify of a mutated %s proof (%s at %s)", cn, m.op, m.path), func() {
-			verr = in.Verify(cn, ctxV, seed+3, "", false, m.bytes, false)
-		})
-	}
-	if se, ok := verr.(*stepErr); ok && se.step != "Verify" {
-		t.Fatalf("harness: %v", verr)
-	}
-	switch {
-	case verdict == "accept:same-values" && verr != nil:
-		t.Fatalf("TAMPER: %s: a %s proof re-encoded by %s at %s decodes to the very same values (canonical re-encoding unchanged) but was REJECTED: %v\noriginal: %x\nmutated:  %x",
-			what, cn, m.op, m.path, verr, proof, m.bytes)
-	case verdict != "accept:same-values" && verr == nil:
-		t.Fatalf("TAMPER: %s: a %s proof mutated by %s at %s (%s) was ACCEPTED\ncontext: %v\noriginal: %x\nmutated:  %x\ncanonical original: %x\ncanonical mutated:  %x",
-			what, cn, m.op, m.path, verdict, cs, proof, m.bytes, canonO, canonM)
+		if discoverMode() {
+			vlib.Class(test, "VIOLATION:"+violation+"="+in.Proto()+"/"+in.Shape()+"/"+string(cn)+"/"+m.op+":"+shortClass(m.class)+" "+firstLine(panicMsg))
+			vlib.Case(test, "violation", false)
+			return
+		}
+		switch violation {
+		case "panic":
+			t.Fatalf("TAMPER: %s: Verify of a %s proof mutated by %s at %s PANICKED: %s\ncontext: %v\noriginal: %x\nmutated:  %x\n%s",
+				what, cn, m.op, m.path, panicMsg, cs, proof, m.bytes, stack)
+		case "rejected-same-values":
+			t.Fatalf("TAMPER: %s: a %s proof re-encoded by %s at %s decodes to the very same values (canonical re-encoding unchanged) but was REJECTED: %v\noriginal: %x\nmutated:  %x",
+				what, cn, m.op, m.path, verr, proof, m.bytes)
+		default:
+			t.Fatalf("TAMPER: %s: a %s proof mutated by %s at %s (%s) was ACCEPTED\ncontext: %v\noriginal: %x\nmutated:  %x\ncanonical original: %x\ncanonical mutated:  %x",
+				what, cn, m.op, m.path, verdict, cs, proof, m.bytes, canonO, canonM)
+		}
 	}
 	nt := !m.identity
 	vlib.Case(test, vlib.Desc(in.Proto(), cn, in.Shape(), in.Group(), "tamper:"+m.op, verdict), nt,
